@@ -399,10 +399,50 @@ def explore(ctx, art):
         ctx.sample({"input": l, "implementation": o})
 
 
+def late_lines(ctx):
+    rng = random.Random(ctx.seed + 31)
+    L = []
+    for at in (300, 1900, 2500, 3100, 3500, 4500, 6500, 8500, 9500):
+        for n in (0, 10, 16, 17, 40, 100):
+            for dl in ("-", "60000"):
+                L.append("late %s %d %d %s" % (dl, at, n, rng.choice(["pig", "sep"])))
+    if ctx.tier != "thorough":
+        L = [l for i, l in enumerate(L) if i % 2 == ctx.seed % 2 or " 3500 " in l or " 6500 " in l]
+    # after the attempts are exhausted / after the caller's deadline nothing may succeed
+    L += ["late - 10500 40 pig", "late - 12000 10 sep", "late 3000 3500 40 pig"]
+    return L
+
+
+def late_responses(ctx, art):
+    """A response that gets back late - after retransmissions, and after the block-wise transfer timeout - on a connection
+    whose block-wise layer is on (the default): the call must succeed with the whole body (finding F35)."""
+    lines = late_lines(ctx)
+    impl = common.run_test_harness(ctx, art["test"], "TestC06Late", lines, tag="late", timeout=600)
+    if impl is None or len(impl) != len(lines):
+        return
+    rc, judge, _ = common.pipe_lines([art["driver"], "latejudge"], [l + " || " + o for l, o in zip(lines, impl)])
+    if rc or len(judge) != len(lines):
+        ctx.broken.append(("model", "C06 driver run failed (latejudge)", ""))
+        return
+    for l, o, j in zip(lines, impl, judge):
+        ctx.cov["evaluations"] += 1
+        f = l.split()
+        ctx.count("late-%s-%s" % ("blockwise" if int(f[3]) > 16 else "single", "after-transfer-timeout" if int(f[2]) > 3000 else "early"))
+        if o.startswith("panic"):
+            ctx.violations.append(common.Violation("no-crash", "C06:late:panic", "%s -> %s" % (l, o[:200]), {"input": [l], "late": True, "observed": o}))
+        elif j != "ok":
+            sig = "C06:late:%s:%s:%s" % ("nodeadline" if f[1] == "-" else "deadline", "blockwise" if int(f[3]) > 16 else "single",
+                                         "after-transfer-timeout" if int(f[2]) > 3000 else "early")
+            ctx.violations.append(common.Violation("reply-before-exhaustion-succeeds", sig, "%s: observed `%s`: %s" % (l, o, j),
+                                                   {"input": [l], "late": True, "observed": o, "judge": j}))
+
+
 def run(ctx):
     art = common.standard_prepare(ctx, MODULES, hx=False, test=True, generated=GENERATED)
     if art.get("test"):
         explore(ctx, art)
+        if art.get("driver"):
+            late_responses(ctx, art)
     ctx.assumptions += [
         "a housekeeping tick is atomic (the Range-based sweep acting on a stale element while its call returns is a schedule effect outside the model)",
         "message IDs of concurrently pending requests are distinct (16-bit counter, at most a handful outstanding)",
@@ -419,6 +459,16 @@ def replay(ctx, rep):
         print("replay file names no failing input:", rep.get("no_longer_checks"))
         return 1
     bad = 0
+    if rep.get("late"):
+        impl = common.run_test_harness(ctx, art["test"], "TestC06Late", lines, tag="replay")
+        rc, judge, _ = common.pipe_lines([art["driver"], "latejudge"], [l + " || " + o for l, o in zip(lines, impl or [])])
+        for l, o, j in zip(lines, impl or [], judge):
+            print("%s: implementation `%s`  judge `%s`" % (l, o, j))
+            if j != "ok":
+                bad += 1
+        if bad:
+            print("VIOLATION property=C06 replay=(replayed) still reproduces")
+        return 1 if bad else 0
     for l in lines:
         impl, model, judge = run_lines(ctx, art, [l] * REPEAT, tag="replay")
         k = next((i for i, j in enumerate(judge or []) if j != "ok"), 0)
